@@ -6,6 +6,7 @@ package sim
 import (
 	"bytes"
 	"encoding/json"
+	"hash/fnv"
 	"fmt"
 	"sort"
 	"strconv"
@@ -196,6 +197,13 @@ func (st *Store) genSuffix() string {
 func (st *Store) emit(t EventType, gvk schema.GroupVersionKind, obj client.Object, old client.Object, by *Task) {
 	st.evSeq++
 	ev := WatchEvent{Seq: st.evSeq, Type: t, GVK: gvk, Key: keyOf(obj), Obj: obj, At: st.sim.Now(), Step: st.sim.step}
+	// every committed object version is part of the run identity: a divergence in content (not only in the
+	// sequence of calls) changes the event-log hash
+	if b, err := json.Marshal(obj); err == nil {
+		h := fnv.New64a()
+		h.Write(b)
+		st.sim.Logf("obj  %s %s %s/%s rv=%s h=%016x", t, gvk.Kind, obj.GetNamespace(), obj.GetName(), obj.GetResourceVersion(), h.Sum64())
+	}
 	for _, f := range st.OnWrite {
 		f(ev, old, by)
 	}
